@@ -89,13 +89,21 @@ def confirm(name, wt):
         if target is None:
             # fall back: package named in the file
             pkgname = re.search(r"^package (\w+)", open(os.path.join(d, f)).read(), re.M).group(1).replace("_test", "")
-            cands = [p for p in pk if p.strip("./").split("/")[-1] == pkgname] or pk
+            cands = [p for p in pk if p.strip("./").split("/")[-1] == pkgname]
+            if not cands:
+                # the demonstration lives in another package than the change (e.g. drives it through swap)
+                rc2, out2 = sh(["git", "ls-files", "*.go"], cwd=wt)
+                cands = sorted({"./" + os.path.dirname(l) + "/" for l in out2.splitlines()
+                                if os.path.basename(os.path.dirname(l)) == pkgname})
+            cands = cands or pk
             target = os.path.join(cands[0].strip("./"), f)
             shutil.copy(os.path.join(d, f), os.path.join(wt, target))
         placed.append(target)
     run = "|".join(sorted(set(re.findall(r"func (Test\w+)", "".join(open(os.path.join(d, f)).read() for f in demos)))))
     demo_pk = sorted({"./" + os.path.dirname(p) + "/" for p in placed})
     res = {"touched_packages": pk, "demo": placed, "demo_tests": run}
+    race = ["-race"] if "-race" in demo_cmd else []  # a data-race demonstration only fails under the race detector
+    res["demo_flags"] = race
     try:
         rc, out = sh(["git", "apply", patch], cwd=wt)
         if rc:
@@ -106,12 +114,12 @@ def confirm(name, wt):
         rc, out = sh(["go", "test", "-vet=off", "-count=1", "-timeout", "25m", "-skip", run or "^$"] + pk, cwd=wt)
         res["existing_tests_pass_with_change"] = rc == 0
         res["existing_tests_tail"] = out.strip().splitlines()[-4:]
-        rc, out = sh(["go", "test", "-vet=off", "-count=1", "-tags", "fast_test", "-run", run] + demo_pk, cwd=wt)
+        rc, out = sh(["go", "test", "-vet=off", "-count=1", "-tags", "fast_test", "-run", run] + race + demo_pk, cwd=wt)
         res["demo_fails_with_change"] = rc != 0
         res["demo_with_change_tail"] = out.strip().splitlines()[-6:]
     finally:
         sh(["git", "checkout", "--", "."], cwd=wt)
-    rc, out = sh(["go", "test", "-vet=off", "-count=1", "-tags", "fast_test", "-run", run] + demo_pk, cwd=wt)
+    rc, out = sh(["go", "test", "-vet=off", "-count=1", "-tags", "fast_test", "-run", run] + race + demo_pk, cwd=wt)
     res["demo_passes_without_change"] = rc == 0
     res["demo_without_change_tail"] = out.strip().splitlines()[-3:]
     res["ok"] = all(res.get(k) for k in ("builds_with_change", "existing_tests_pass_with_change", "demo_fails_with_change", "demo_passes_without_change"))
